@@ -163,14 +163,22 @@ def hasId (id : Nat) : Option Conn → Bool
   | some c => c.id == id
   | none => false
 
-/-- the live record with serial `id` -/
-def findConn (w : W) (id : Nat) : Option Conn :=
-  ((slots w).find? (hasId id)).join
+/-- first record with serial `id` in the slot table -/
+def findIn : List (Option Conn) → Nat → Option Conn
+  | [], _ => none
+  | none :: l, id => findIn l id
+  | some c :: l, id => if c.id = id then some c else findIn l id
+
+/-- the live record with serial `id` (the C pointer `ip` is valid iff this is `some`) -/
+def findConn (w : W) (id : Nat) : Option Conn := findIn (slots w) id
+
+/-- apply `f` to the record(s) with serial `id` -/
+def mapSlot (id : Nat) (f : Conn → Conn) : Option Conn → Option Conn
+  | some c => if c.id = id then some (f c) else some c
+  | none => none
 
 def mapConn (w : W) (id : Nat) (f : Conn → Conn) : W :=
-  { w with users := w.users.map (fun l => l.map (fun s => match s with
-      | some c => if c.id == id then some (f c) else some c
-      | none => none)) }
+  { w with users := w.users.map (fun l => l.map (mapSlot id f)) }
 
 /-- a C access through a saved `ip` after a callback: crash when the record was freed meanwhile -/
 def useConn (w : W) (id : Nat) : W :=
@@ -209,56 +217,50 @@ def hbOff (w : W) : W :=
   | some o => { setHeartBeat w o 0 with curHb := none }
   | none => w
 
+def setErr (w : W) (b : Bool) : W := { w with inError := b }
+def setMeh (w : W) (b : Bool) : W := { w with inMeh := b }
+def bumpDepth (w : W) : W := { w with mehDepth := w.mehDepth + 1 }
+def resetDepth (w : W) : W := { w with mehDepth := 0 }
+
+/-- the tail of error_handler() when it does not (or no longer) call the master:
+    `in_error = 1; in_mudlib_error_handler = 0; heart beat shut-off; in_error = 0;` (then longjmp) -/
+def errExit (w : W) : W := setErr (hbOff (setMeh (setErr w true) false)) false
+
+/-- the LPC handler of behaviour `recurse`: `catch (error ("mehinner"))` (FRAME_CATCH branch with
+    in_mudlib_error_handler = 1: print, flag := 0, longjmp to the catch), then `error ("mehagain")`: uncaught,
+    in_error = 1, in_mudlib_error_handler was 0 -> := 1, in_error = 0, and the master's handler is entered again -/
+def reenter (w : W) : W := setErr (setMeh (setErr (setMeh (bumpDepth w) false) true) true) false
+
 /-- mudlib_error_handler + the verification master's error_handler(): reports, then behaves per `meh`.
     Returns `true` when the handler itself raised (control has left through a nested error_handler/longjmp).
     `fuel` bounds the re-entries of the `recurse` behaviour (the LPC handler stops after two re-entries). -/
 def callMasterHandler : Nat → W → String → W × Bool
   | 0, w, msg => (emit w (.meh false msg), false)
   | fuel + 1, w, msg =>
-    let w := emit w (.meh false msg)
     match w.meh with
-    | .ok => (w, false)
+    | .ok => (emit w (.meh false msg), false)
     | .raise =>
       -- error("mehfail") inside the handler: nested error_handler with in_mudlib_error_handler = 1
-      --   in_error = 1; "error in mudlib error handler"; in_mudlib_error_handler = 0; heart beat; in_error = 0; longjmp
-      let w := { w with inError := true }
-      let w := { w with inMeh := false }
-      let w := hbOff w
-      ({ w with inError := false }, true)
+      (errExit (emit w (.meh false msg)), true)
     | .recurse =>
       if w.mehDepth < 2 then
-        let w := { w with mehDepth := w.mehDepth + 1 }
-        -- catch(error("mehinner")): FRAME_CATCH branch with in_mudlib_error_handler = 1: print, flag := 0, longjmp to catch
-        let w := { w with inMeh := false }
-        -- error("mehagain"): uncaught, in_error = 0, in_mudlib_error_handler = 0 -> the handler is entered again
-        let w := { w with inError := true }
-        let w := { w with inMeh := true, inError := false }
-        let (w, raised) := callMasterHandler fuel w "mehagain"
-        if raised then (w, true) else
-        let w := { w with inError := true, inMeh := false }
-        let w := hbOff w
-        ({ w with inError := false }, true)
+        let r := callMasterHandler fuel (reenter (emit w (.meh false msg))) "mehagain"
+        if r.2 then (r.1, true) else (errExit r.1, true)
       else
-        ({ w with mehDepth := 0 }, false)
+        (resetDepth (emit w (.meh false msg)), false)
 
 /-- error_handler() for an error outside any catch: everything up to (not including) the longjmp -/
 def errorHandler (w : W) (msg : String) : W :=
   if w.inError then
     -- "New error occured while generating error trace!": no report to the mudlib, in_error stays set
     w
+  else if w.inMeh then
+    -- "error in mudlib error handler"
+    errExit w
   else
-    let w := { w with inError := true }
-    if w.inMeh then
-      let w := { w with inMeh := false }
-      let w := hbOff w
-      { w with inError := false }
-    else
-      let w := { w with inMeh := true, inError := false }
-      let (w, raised) := callMasterHandler 3 w msg
-      if raised then w else
-      let w := { w with inError := true, inMeh := false }
-      let w := hbOff w
-      { w with inError := false }
+    -- in_error = 1; in_mudlib_error_handler = 1; in_error = 0; mudlib_error_handler (); in_error = 1; ... = 0
+    let r := callMasterHandler 3 (setErr (setMeh (setErr w true) true) false) msg
+    if r.2 then r.1 else errExit r.1
 
 /-- error_handler() for an error inside catch() (LOG_CATCHES): reported with caught = 1, then longjmp to the catch -/
 def caughtError (w : W) (msg : String) : W :=
@@ -273,12 +275,17 @@ def caughtError (w : W) (msg : String) : W :=
 def freeSlot (l : List (Option Conn)) (id : Nat) : List (Option Conn) :=
   l.map (fun s => if hasId id s then none else s)
 
+/-- index (offset `i`) of the first empty slot of `l`, or `i + l.length` -/
+def firstNone : List (Option Conn) → Nat → Nat
+  | [], i => i
+  | none :: _, i => i
+  | some _ :: l, i => firstNone l (i + 1)
+
 /-- `for (i = 1; i < max_users; i++) if (!all_users[i]) break;` - first free slot index >= 1 (slot 0 is the
     console's), else where the loop stops: the table size, but never below 1 (empty table: i stays 1) -/
-def firstFree (l : List (Option Conn)) : Nat :=
-  match (l.drop 1).findIdx? (fun s => s.isNone) with
-  | some i => i + 1
-  | none => max 1 l.length
+def firstFree : List (Option Conn) → Nat
+  | [] => 1
+  | _ :: t => firstNone t 1
 
 /-- new_interactive(): returns the new record's serial, or none when it refused (console user exists) -/
 def newInteractive (w : W) (console : Bool) (client : Nat) : W × Option Nat :=
@@ -299,6 +306,29 @@ abbrev R := W × Bool
 /-- the type of "run hook `k` of object `o`" (open recursion: nesting is bounded by fuel in `runHook`) -/
 abbrev HookFn := W → Oid → Kind → R
 
+def markClosing (c : Conn) : Conn := { c with closing := true }
+
+def pushCtx (w : W) : W := { w with ctxDepth := w.ctxDepth + 1 }
+def popCtx (w : W) : W := { w with ctxDepth := w.ctxDepth - 1 }
+
+/-- `safe_apply (APPLY_NET_DEAD, ob, ...)` in remove_interactive(): own error context; an error inside is handled
+    and stops here -/
+def netDeadHook (rh : HookFn) (w : W) (o : Oid) (dested : Bool) : W :=
+  if dested then w else
+  if w.dead o then w else
+  if o = .master then w else            -- the master defines no net_dead()
+  popCtx (rh (emit (pushCtx w) (.tNetdead o)) o .netdead).1
+
+/-- the end of remove_interactive(): `ip != all_users[0]`, console shutdown, FREE (ip), slot and pointer cleared -/
+def freeConnOf (w : W) (o : Oid) (id : Nat) (client : Nat) : W :=
+  match w.users with
+  | none => crash w "remove_interactive: all_users is NULL"
+  | some l =>
+    let text := match findConn w id with | some c => c.out | none => ""
+    let w1 := setInter { w with users := some (freeSlot l id), outs := (client, text) :: w.outs } o none
+    -- console user and stdin is not a tty: "Console input closed (pipe/file) - shutting down"
+    if w.mode = .console && hasId id (l.headD none) then { w1 with shutdown := true } else w1
+
 /-- remove_interactive(ob, dested) -/
 def removeInteractive (rh : HookFn) (w : W) (o : Oid) (dested : Bool) : W :=
   match w.inter o with
@@ -308,25 +338,9 @@ def removeInteractive (rh : HookFn) (w : W) (o : Oid) (dested : Bool) : W :=
     | none => crash w s!"remove_interactive: dangling interactive #{id}"
     | some c =>
       if c.closing then w else                -- "Double call to remove_interactive()"
-      let w := mapConn w id (fun c => { c with closing := true })
-      -- safe_apply(net_dead): own error context; an error inside is handled and stops here
-      let w := if dested then w else
-        if w.dead o then w else
-        if o = .master then w else            -- the master defines no net_dead()
-        let w := { w with ctxDepth := w.ctxDepth + 1 }
-        let w := emit w (.tNetdead o)
-        let (w, _) := rh w o .netdead
-        { w with ctxDepth := w.ctxDepth - 1 }
+      let w := netDeadHook rh (mapConn w id markClosing) o dested
       -- the record is still ours (CLOSING keeps everybody else away): ip->snoop_by, ip != all_users[0], FREE (ip)
-      let w := useConn w id
-      match w.users with
-      | none => crash w "remove_interactive: all_users is NULL"
-      | some l =>
-        let isConsole := hasId id (l.headD none)
-        let w := if w.mode = .console && isConsole then { w with shutdown := true } else w   -- stdin is not a tty
-        let text := match findConn w id with | some c => c.out | none => ""
-        let w := { w with users := some (freeSlot l id), outs := (c.client, text) :: w.outs }
-        setInter w o none
+      freeConnOf (useConn w id) o id c.client
 
 /-- destruct_object() -/
 def destructObject (rh : HookFn) (w : W) (o : Oid) : W :=
@@ -348,6 +362,11 @@ def insertCallOut (l : List CallOut) (c : CallOut) : List CallOut :=
   | [] => [c]
   | x :: xs => if x.due ≥ c.due then c :: x :: xs else x :: insertCallOut xs c
 
+/-- an apply() on a plain object clears O_RESET_STATE -/
+def touch (w : W) : Oid → W
+  | .obj k => { w with resetState := fun x => if x = k then false else w.resetState x }
+  | _ => w
+
 /-- run a script in object `self`; stops at the first uncaught error or when `self` destructs itself -/
 def runOps (rh : HookFn) (self : Oid) : List Op → W → R
   | [], w => (w, false)
@@ -358,10 +377,8 @@ def runOps (rh : HookFn) (self : Oid) : List Op → W → R
       let w := emit w (.xErr self.name)
       (errorHandler w s!"boom {self.name}", true)
     | .cerr =>
-      let w := emit w (.xCerr self)
-      let w := { w with ctxDepth := w.ctxDepth + 1 }
-      let w := caughtError w s!"cboom {self.name}"
-      runOps rh self rest { w with ctxDepth := w.ctxDepth - 1 }
+      -- catch(): own error context around the failing expression
+      runOps rh self rest (popCtx (caughtError (pushCtx (emit w (.xCerr self))) s!"cboom {self.name}"))
     | .dest t =>
       let w := emit w (.xDest self t)
       let w := if objExists w t then destructObject rh w t else w     -- LPC: `if (o) destruct (o)`
@@ -377,10 +394,7 @@ def runOps (rh : HookFn) (self : Oid) : List Op → W → R
       runOps rh self rest (setHeartBeat w self n)
     | .w s =>
       -- tell_object(): add_message for a user; for a plain object the catch_tell apply touches it (O_RESET_STATE off)
-      let w := match self with
-        | .obj k => { w with resetState := fun x => if x = k then false else w.resetState x }
-        | _ => w
-      runOps rh self rest (addOut w self (s ++ "|"))
+      runOps rh self rest (addOut (touch w self) self (s ++ "|"))
     | .meh m => runOps rh self rest { w with meh := m }
 
 def kindEv (o : Oid) : Kind → Ev
@@ -397,6 +411,8 @@ def runHook (S : Scripts) : Nat → HookFn
   | 0 => fun w _ _ => (w, false)
   | fuel + 1 => fun w o k => runOps (runHook S fuel) o (S.hook o k) w
 
+def bindTo (u : Oid) (c : Conn) : Conn := { c with ob := u, hasPI := true }
+
 /-- mudlib_connect(): master->connect(); on success the record moves from the master to the new user object -/
 def mudlibConnect (S : Scripts) (w : W) : W × Option Oid × Bool :=
   let k := w.nConnect + 1
@@ -411,60 +427,55 @@ def mudlibConnect (S : Scripts) (w : W) : W × Option Oid × Bool :=
     match w.inter .master with
     | none => (w, none, false)          -- "!master_ob->interactive": rejected
     | some id =>
+      -- ob->interactive = master_ob->interactive; ip->ob = ob; iflags |= HAS_PROCESS_INPUT; master_ob->interactive = 0
       let u := Oid.user (w.nUser + 1)
       let w := { w with nUser := w.nUser + 1 }
-      let w := setInter w u (some id)
-      let w := mapConn w id (fun c => { c with ob := u, hasPI := true })
-      (setInter w .master none, some u, false)
+      (mapConn (setInter (setInter w .master none) u (some id)) id (bindTo u), some u, false)
 
 def logonHook (rh : HookFn) (w : W) (u : Oid) : R :=
   let w := emit w (.tLogon u)
   let w := addOut w u s!"hello_{u.name}|"
   rh w u .logon
 
+/-- after new_interactive(): mudlib_connect(); rejected -> remove the record again; accepted -> logon() -/
+def afterConnect (S : Scripts) (rh : HookFn) (w : W) : R :=
+  let r := mudlibConnect S w
+  if r.2.2 then (r.1, true) else
+  match r.2.1 with
+  | none =>
+    match r.1.inter .master with
+    | some _ => (removeInteractive rh r.1 .master false, false)
+    | none => (r.1, false)
+  | some u => logonHook rh r.1 u
+
 /-- setup_accepted_connection() after accept() -/
 def acceptConn (S : Scripts) (rh : HookFn) (w : W) (client : Nat) : R :=
-  let (w, nid) := newInteractive w false client
-  match nid with
-  | none => (w, false)
-  | some _ =>
-    let (w, ou, raised) := mudlibConnect S w
-    if raised then (w, true) else
-    match ou with
-    | none =>
-      match w.inter .master with
-      | some _ => (removeInteractive rh w .master false, false)
-      | none => (w, false)
-    | some u => logonHook rh w u
+  let r := newInteractive w false client
+  match r.2 with
+  | none => (r.1, false)
+  | some _ => afterConnect S rh r.1
 
 /-- init_console_user(reconnect) -/
 def initConsoleUser (S : Scripts) (rh : HookFn) (w : W) : R :=
-  let (w, _) := newInteractive w true 0
+  let w := (newInteractive w true 0).1
   match w.inter .master with
   | none => (crash w "init_console_user: master_ob->interactive is NULL", false)
-  | some _ =>
-    let (w, ou, raised) := mudlibConnect S w
-    if raised then (w, true) else
-    match ou with
-    | none =>
-      match w.inter .master with
-      | some _ => (removeInteractive rh w .master false, false)
-      | none => (w, false)
-    | some u => logonHook rh w u
+  | some _ => afterConnect S rh w
 
 /-- split received text at line ends ('/'): (complete lines, new partial) -/
 def splitLines (part : String) (text : String) : List String × String :=
   let pieces := (part ++ text).splitOn "/"
   (pieces.dropLast, pieces.getLastD "")
 
+def bufferText (ls : List String) (p : String) (c : Conn) : Conn := { c with cmds := c.cmds ++ ls, part := p }
+
 /-- get_user_data() with data: buffer it, echo CR LF per completed line (telnet); no LPC is called -/
 def userData (w : W) (id : Nat) (telnet : Bool) (text : String) : W :=
   match findConn w id with
   | none => w
   | some c =>
-    let (ls, p) := splitLines c.part text
-    let ls := ls.filter (· ≠ "")
-    let w := mapConn w id (fun c => { c with cmds := c.cmds ++ ls, part := p })
+    let ls := (splitLines c.part text).1.filter (· ≠ "")
+    let w := mapConn w id (bufferText ls (splitLines c.part text).2)
     if telnet then addOut w c.ob (String.join (ls.map (fun _ => "|"))) else w
 
 inductive IoEv
@@ -497,25 +508,25 @@ def ioEvent (S : Scripts) (rh : HookFn) (w : W) : IoEv → R
     match w.users with
     | none => (crash w "process_io: all_users[0] with all_users == NULL (console)", false)
     | some l =>
-      let (w, raised) := if (l.headD none).isNone then initConsoleUser S rh w else (w, false)
-      if raised then (w, true) else
-      match (slots w).headD none with
-      | none => (w, false)
-      | some c => (userData w c.id false text, false)
+      -- console user disconnected: re-connect first
+      let r := if (l.headD none).isNone then initConsoleUser S rh w else (w, false)
+      if r.2 then (r.1, true) else
+      match (slots r.1).headD none with
+      | none => (r.1, false)
+      | some c => (userData r.1 c.id false text, false)
 
 def processIoEvents (S : Scripts) (rh : HookFn) : List IoEv → W → R
   | [], w => (w, false)
   | e :: es, w =>
-    let (w, raised) := ioEvent S rh w e
-    if raised then (w, true) else processIoEvents S rh es w
+    if (ioEvent S rh w e).2 then ((ioEvent S rh w e).1, true) else processIoEvents S rh es (ioEvent S rh w e).1
 
 /-- process_io(): all events, then `if (all_users && all_users[0]) flush_message (all_users[0])` -/
 def processIo (S : Scripts) (rh : HookFn) (w : W) (evs : List IoEv) : R :=
-  let (w, raised) := processIoEvents S rh evs w
-  if raised then (w, true) else
-  match w.users with
-  | none => (w, false)            -- guarded by the fix; before it: `all_users[0]` with all_users == NULL
-  | some _ => (w, false)
+  let r := processIoEvents S rh evs w
+  if r.2 then (r.1, true) else
+  match r.1.users with
+  | none => (r.1, false)            -- guarded by the fix; before it: `all_users[0]` with all_users == NULL
+  | some _ => (r.1, false)
 
 /-! ## commands (comm.c) -/
 
@@ -545,52 +556,53 @@ def updateLoadAv (w : W) : W :=
   else if w.now < w.loadLast then { w with loadLast := w.now }      -- fix commit; before: consts[negative]
   else { w with loadLast := w.now }
 
+/-- `ip->iflags & HAS_PROCESS_INPUT` -/
+def hasPIOf (w : W) (id : Nat) : Bool := match findConn w id with | some c => c.hasPI | none => false
+
+/-- process_input apply of process_user_command() -/
+def inputStage (rh : HookFn) (w : W) (cg : Oid) (line : String) (hasPI : Bool) : R :=
+  if hasPI then rh (emit w (.tInput cg line)) cg .input else (w, false)
+
+/-- process_command -> user_parser -> the catch-all verb of the user object -/
+def commandStage (rh : HookFn) (w : W) (cg : Oid) (line : String) : R :=
+  if cg = .master then (w, false)           -- user_parser(): no O_ENABLE_COMMANDS, nothing happens
+  else if w.dead cg then (w, false) else
+    let r := rh (emit w (.tCmd cg line)) cg (.cmd line)
+    if r.2 then (r.1, true) else (addOut r.1 cg s!"ack_{line}|", false)
+
+/-- process_user_command() once get_user_command() has picked a record: (state, processed, uncaught error) -/
+def serveCommand (rh : HookFn) (w : W) (c0 : Conn) : W × Bool × Bool :=
+  let cg := c0.ob                               -- command_giver = ip->ob
+  let line := c0.cmds.headD ""
+  if w.dead cg then (w, true, false) else
+  match w.inter cg with                         -- ip = command_giver->interactive
+  | none => (w, true, false)
+  | some id =>
+    let w := updateLoadAv (useConn w id)        -- clear_notify (ip); update_load_av ()
+    let hasPI := hasPIOf w id
+    let r1 := inputStage rh w cg line hasPI
+    if r1.2 then (r1.1, true, true) else
+    if hasPI && r1.1.inter cg ≠ some id then (r1.1, true, false) else      -- VALIDATE_IP
+    let r2 := commandStage rh r1.1 cg line
+    if r2.2 then (r2.1, true, true) else
+    if r2.1.inter cg ≠ some id then (r2.1, true, false) else               -- VALIDATE_IP
+    -- print_prompt (ip); tell_object (ip->ob, prompt): the master is not a user object, nothing reaches the socket
+    (if cg = .master then useConn r2.1 id else addOut (useConn r2.1 id) cg ">_", true, false)
+
 /-- process_user_command(): returns (state, a command was processed, uncaught error) -/
 def processUserCommand (rh : HookFn) (w : W) : W × Bool × Bool :=
-  let (w, oc) := scanUsers (slots w).length w
-  match oc with
-  | none => (w, false, false)
-  | some c0 =>
-    let cg := c0.ob                               -- command_giver = ip->ob
-    let line := c0.cmds.headD ""
-    if w.dead cg then (w, true, false) else
-    match w.inter cg with                         -- ip = command_giver->interactive
-    | none => (w, true, false)
-    | some id =>
-      let w := useConn w id                       -- clear_notify (ip)
-      let w := updateLoadAv w
-      let hasPI := match findConn w id with | some c => c.hasPI | none => false
-      -- process_input
-      let (w, raised) :=
-        if hasPI then
-          let w := emit w (.tInput cg line)
-          rh w cg .input
-        else (w, false)
-      if raised then (w, true, true) else
-      if hasPI && w.inter cg ≠ some id then (w, true, false) else      -- VALIDATE_IP
-      -- process_command -> user_parser -> the catch-all verb
-      let (w, raised) :=
-        if cg = .master then (w, false)           -- user_parser(): no O_ENABLE_COMMANDS, nothing happens
-        else if w.dead cg then (w, false) else
-          let w := emit w (.tCmd cg line)
-          let (w, raised) := rh w cg (.cmd line)
-          if raised then (w, true) else
-          (addOut w cg s!"ack_{line}|", false)
-      if raised then (w, true, true) else
-      if w.inter cg ≠ some id then (w, true, false) else               -- VALIDATE_IP
-      let w := useConn w id                       -- print_prompt (ip)
-      -- tell_object (ip->ob, prompt): the master is not a user object, nothing reaches the socket
-      (if cg = .master then w else addOut w cg ">_", true, false)
+  let r := scanUsers (slots w).length w
+  match r.2 with
+  | none => (r.1, false, false)
+  | some c0 => serveCommand rh r.1 c0
 
 /-- `for (i = 0; process_user_command () && i < connected_users; i++);` -/
 def commandLoop (rh : HookFn) : Nat → W → R
-  | 0, w =>
-    let (w, _, raised) := processUserCommand rh w
-    (w, raised)
+  | 0, w => ((processUserCommand rh w).1, (processUserCommand rh w).2.2)
   | n + 1, w =>
-    let (w, did, raised) := processUserCommand rh w
-    if raised then (w, true) else
-    if did then commandLoop rh n w else (w, false)
+    let r := processUserCommand rh w
+    if r.2.2 then (r.1, true) else
+    if r.2.1 then commandLoop rh n r.1 else (r.1, false)
 
 /-! ## the timer tick (backend.c call_heart_beat) -/
 
@@ -601,26 +613,22 @@ def hbLoop (rh : HookFn) : Nat → W → R
     match w.hbs[w.hbNext]? with           -- heart_beats[heart_beat_index]
     | none => (w, false)
     | some o =>
-      let w := { w with hbNext := w.hbNext + 1, curHb := some o }
-      let w := emit w (.tHb o)
-      let (w, raised) := rh w o .hb
-      if raised then (w, true) else
-      if w.hbNext = w.hbToDo then (w, false) else hbLoop rh n w
+      let r := rh (emit { w with hbNext := w.hbNext + 1, curHb := some o } (.tHb o)) o .hb
+      if r.2 then (r.1, true) else
+      if r.1.hbNext = r.1.hbToDo then (r.1, false) else hbLoop rh n r.1
+
+/-- reset_object(): next_reset first, then apply (clears O_RESET_STATE), O_RESET_STATE set when it returns -/
+def resetObject (rh : HookFn) (w : W) (k : Nat) : W :=
+  let r := rh (emit { w with nextReset := fun x => if x = k then w.now + resetDuration / 2 else w.nextReset x }
+                    (.tReset (.obj k))) (.obj k) .reset
+  if r.2 then r.1 else { r.1 with resetState := fun x => if x = k then true else r.1.resetState x }
 
 /-- look_for_objects_to_swap(): reset() of every object that is due; own recovery point (the list walk restarts) -/
 def sweepResets (rh : HookFn) : List Nat → W → W
   | [], w => w
   | k :: ks, w =>
-    let o := Oid.obj k
-    if w.dead o then sweepResets rh ks w else
-    if w.nextReset k < w.now && !w.resetState k then
-      -- reset_object(): next_reset first, then apply (clears O_RESET_STATE), O_RESET_STATE set on return
-      let w := { w with nextReset := fun x => if x = k then w.now + resetDuration / 2 else w.nextReset x }
-      let w := emit w (.tReset o)
-      let (w, raised) := rh w o .reset
-      let w := if raised then w
-               else { w with resetState := fun x => if x = k then true else w.resetState x }
-      sweepResets rh ks w
+    if w.dead (.obj k) then sweepResets rh ks w else
+    if w.nextReset k < w.now && !w.resetState k then sweepResets rh ks (resetObject rh w k)
     else sweepResets rh ks w
 
 /-- call_out(): every due entry fires, entries of destructed objects are dropped; own recovery point per entry -/
@@ -633,34 +641,28 @@ def sweepCallOuts (rh : HookFn) : Nat → W → W
       if c.due ≤ w.now then
         let w := { w with callouts := rest }
         if w.dead c.owner then sweepCallOuts rh n w else
-        let w := emit w (.tCo c.owner c.tag)
-        let w := match c.owner with
-          | .obj k => { w with resetState := fun x => if x = k then false else w.resetState x }   -- apply() touches it
-          | _ => w
-        let (w, _) := rh w c.owner (.co c.tag)
-        sweepCallOuts rh n w
+        sweepCallOuts rh n (rh (touch (emit w (.tCo c.owner c.tag)) c.owner) c.owner (.co c.tag)).1
       else w
+
+/-- the heart-beat round of call_heart_beat() -/
+def hbRound (rh : HookFn) (w : W) : R :=
+  if w.hbToDo > 0 then
+    let r := hbLoop rh w.hbToDo { w with hbNext := 0 }
+    if r.2 then (r.1, true) else ({ r.1 with hbNext := 0, hbToDo := 0 }, false)
+  else (w, false)
+
+/-- look_for_objects_to_swap() and call_out(), each under its own error context -/
+def timerSweeps (rh : HookFn) (w : W) : W :=
+  let w := { w with curHb := none }
+  let w :=
+    if w.now < w.nextSweep then w else
+    popCtx (sweepResets rh w.objList (pushCtx { w with nextSweep := w.now + sweepPeriod }))
+  popCtx (sweepCallOuts rh (w.callouts.length) (pushCtx w))
 
 /-- call_heart_beat() -/
 def callHeartBeat (rh : HookFn) (w : W) : R :=
-  let w := { w with hbFlag := false, now := w.clock, hbToDo := w.hbs.length }
-  let (w, raised) :=
-    if w.hbToDo > 0 then
-      let (w, raised) := hbLoop rh w.hbToDo { w with hbNext := 0 }
-      if raised then (w, true) else ({ w with hbNext := 0, hbToDo := 0 }, false)
-    else (w, false)
-  if raised then (w, true) else
-  let w := { w with curHb := none }
-  -- look_for_objects_to_swap
-  let w :=
-    if w.now < w.nextSweep then w else
-    let w := { w with nextSweep := w.now + sweepPeriod, ctxDepth := w.ctxDepth + 1 }
-    let w := sweepResets rh w.objList w
-    { w with ctxDepth := w.ctxDepth - 1 }
-  -- call_out
-  let w := { w with ctxDepth := w.ctxDepth + 1 }
-  let w := sweepCallOuts rh (w.callouts.length) w
-  ({ w with ctxDepth := w.ctxDepth - 1 }, false)
+  let r := hbRound rh { w with hbFlag := false, now := w.clock, hbToDo := w.hbs.length }
+  if r.2 then (r.1, true) else (timerSweeps rh r.1, false)
 
 /-! ## backend() -/
 
@@ -687,44 +689,42 @@ def applyAction (w : W) : Action → W × List IoEv
 def applyActions : List Action → W → W × List IoEv
   | [], w => (w, [])
   | a :: as, w =>
-    let (w, e1) := applyAction w a
-    let (w, e2) := applyActions as w
-    (w, e1 ++ e2)
+    ((applyActions as (applyAction w a).1).1, (applyAction w a).2 ++ (applyActions as (applyAction w a).1).2)
 
 /-- restore_context (&econ) at the recovery point of backend(): back to the head of the loop.
     (Before the fix commits the start-up code ran again from here.) -/
 def recover (w : W) : W := { w with ctxDepth := 1 }
 
+/-- remove_destructed_objects (); grant command turns; do_comm_polling (trace marker, the outside world acts) -/
+def cycleHead (n : Nat) (acts : List Action) (w : W) : W × List IoEv :=
+  applyActions acts
+    (emit { w with users := w.users.map (fun l => l.map (fun s => s.map (fun c => { c with turn := true }))) } (.cycle n))
+
+/-- the body of one iteration after the poll: process_io, the command loop, call_heart_beat -/
+def cycleBody (S : Scripts) (rh : HookFn) (connected : Nat) (w : W) (evs : List IoEv) : W × Bool :=
+  let r1 := if evs.isEmpty then (w, false) else processIo S rh w evs
+  if r1.2 then (recover r1.1, false) else
+  let r2 := commandLoop rh connected r1.1
+  if r2.2 then (recover r2.1, false) else
+  if r2.1.hbFlag then
+    let r3 := callHeartBeat rh r2.1
+    if r3.2 then (recover r3.1, false) else (r3.1, true)
+  else (r2.1, true)
+
 /-- one iteration of `while (1)` in backend(); `n` is the cycle number (trace marker at the poll point).
     The Bool says whether the iteration reached its end (where the H1 hook sits) instead of leaving by longjmp. -/
 def cycle (S : Scripts) (rh : HookFn) (n : Nat) (acts : List Action) (w : W) : W × Bool :=
   if w.shutdown then (w, false) else
-  -- remove_destructed_objects (); grant command turns, count connected users
-  let connected := ((slots w).filter Option.isSome).length
-  let w := { w with users := w.users.map (fun l => l.map (fun s => s.map (fun c => { c with turn := true }))) }
-  -- do_comm_polling
-  let w := emit w (.cycle n)
-  let (w, evs) := applyActions acts w
-  -- process_io
-  let (w, raised) := if evs.isEmpty then (w, false) else processIo S rh w evs
-  if raised then (recover w, false) else
-  let (w, raised) := commandLoop rh connected w
-  if raised then (recover w, false) else
-  if w.hbFlag then
-    let (w, raised) := callHeartBeat rh w
-    if raised then (recover w, false) else (w, true)
-  else (w, true)
+  cycleBody S rh ((slots w).filter Option.isSome).length (cycleHead n acts w).1 (cycleHead n acts w).2
 
 /-- backend() up to the loop: save_context, recovery point, then the start-up steps - initial tick, console user -
     each exactly once even when the previous one left through the recovery point (fix commits) -/
 def startup (S : Scripts) (rh : HookFn) (w : W) : W :=
-  let w := emit w .start
-  let w := { w with ctxDepth := 1 }
-  let (w, raised) := callHeartBeat rh w
-  let w := if raised then recover w else w
+  let r := callHeartBeat rh { (emit w .start) with ctxDepth := 1 }
+  let w := if r.2 then recover r.1 else r.1
   if w.mode = .console then
-    let (w, raised) := initConsoleUser S rh w
-    if raised then recover w else w
+    let r := initConsoleUser S rh w
+    if r.2 then recover r.1 else r.1
   else w
 
 def runCycles (S : Scripts) (rh : HookFn) : Nat → List (List Action) → W → W
